@@ -5,6 +5,7 @@ CONSTANT DropKind = "none"
 CONSTANT DropIdx = 0
 CONSTANT Cases <- CasesDeg
 CONSTANT Sel = {}
+CONSTANT DegShift = 0
 INIT InitCat
 NEXT NextDeg
 INVARIANT CatLayoutInv
